@@ -598,11 +598,26 @@ def make_disk_storage(fs, chunk_size=None):
     return ds.DiskStorage('/q/env', '/q/meta', '/q/tmp')
 
 
+class CopyDict(dict):
+    """Mapping that stores and returns copies, like a shelve.Shelf (the
+    persistent mapping DictStorage is meant to be used with): changing an
+    object obtained from it changes nothing until it is stored again."""
+
+    def __setitem__(self, key, value):
+        dict.__setitem__(self, key, copy.deepcopy(value))
+
+    def __getitem__(self, key):
+        return copy.deepcopy(dict.__getitem__(self, key))
+
+
 def make_storage(kind, substrate=None):
     """-> (storage, substrate)"""
     if kind == 'dict':
         from slimta.queue.dict import DictStorage
         return DictStorage(), None
+    if kind == 'shelf':
+        from slimta.queue.dict import DictStorage
+        return DictStorage(CopyDict(), CopyDict()), None
     if kind == 'redis':
         sub = substrate or FakeRedis()
         return make_redis_storage(sub), sub
